@@ -467,6 +467,30 @@ def search_c06(results, tier, seed, broken):
                   "rule": "every transcript operation (kind, label, payload bytes = serialize_uncompressed of the object the schedule names, checked by decoding / MSM) of prover and verifier runs on honest, call-sequence and mutated-proof cases, 1- and 2-phase, 0..2 closures, 3 curves, compared with the model's schedule and with each other; distinct = distinct (kind,label) sequences"}
 
 
+# ------------------------------------------------------------------ C07
+def search_c07(results, tier, seed, broken):
+    hits, n, nontriv, dist = [], 0, set(), Counter()
+    for comp, streams, r in results:
+        if comp != "batch":
+            continue
+        for cid, s in r.summary.items():
+            im = r.impl.get(cid) or {}
+            n += 1
+            bv = int(im.get(15, ["-1"])[0])
+            singles = [int(x) for x in im.get(20, [])]
+            kind = _tagval(s["line"], "kind")
+            dist["kind=%s batch=%d all_single_ok=%s" % (kind, bv, all(x == 0 for x in singles))] += 1
+            nontriv.add((kind, tuple(singles), s["curve"], len(singles)))
+            if bv == 99:
+                hits.append(_hit(r, comp, streams, cid, "batch_verify panicked: " + str(im.get(98, ""))))
+            elif bv == 0 and any(x != 0 for x in singles):
+                hits.append(_hit(r, comp, streams, cid, "batch accepted although instances %s fail individually (verdicts %s)" % ([i for i, x in enumerate(singles) if x != 0], singles)))
+            elif bv != 0 and all(x == 0 for x in singles):
+                hits.append(_hit(r, comp, streams, cid, "batch rejected (code %d) although every instance verifies individually" % bv))
+    return hits, {"searched": n, "hits": len(hits), "distinct_nontrivial": len(nontriv), "distribution": dict(dist),
+                  "rule": "batches of 0..4 instances (mixed sizes, 1- and 2-phase), kinds: all honest, one invalid member at every position, the same proof with its final scalar shifted by +d and -d (alone and among honest members), empty, single, an instance with an identity point / extra round inside; weights drawn by the real code from a replayed RNG; the batch verdict is compared with the conjunction of the individual real verdicts and with the model's batch_verify under the same weights; distinct = distinct (kind, individual verdicts, curve)"}
+
+
 PROPS = {
     "C01": {
         "prop_files": ["Properties/C01.v"], "run_files": ["Run/R1cs.v"],
@@ -496,6 +520,13 @@ PROPS = {
         "search": search_c06,
         "assumptions": ["Merlin/STROBE + ChaCha + ScalarField::rand = one function RO of the operation history (random-oracle idealisation)",
                         "byte encodings of payloads are arkworks' serialize_uncompressed (checked by K6: decoded / re-materialised)"],
+    },
+    "C07": {
+        "prop_files": ["Properties/C07.v"], "run_files": ["Run/R1cs.v"],
+        "level": "proof",
+        "components": lambda tier: [("batch", ["batch"], {})],
+        "search": search_c07,
+        "assumptions": ["field and F-module laws; the weights are drawn after all proofs are fixed (caller's RNG); probability statement in its exact 'at most one alpha_j' form"],
     },
     "C09": {
         "prop_files": ["Properties/C09.v"], "run_files": ["Run/R1cs.v"],
